@@ -124,6 +124,59 @@ def gen_encode_cases(rng, count, thorough, tag):
         cases.append(enc_case('%s%d' % (tag, i), r.below(65536), r.below(256), batch, minb, maxb, api))
     return cases
 
+BIG_MAXES = [65535, 65536, 65542, 65543, 65544, 65545, 65550, 65557, 65558, 65559, 65560, 65561, 65600, 80000, 131072, 200000]
+
+def plain_packet(rng, ver, n, mt):
+    p = gen_packet(rng, ver, 1, mt, allow_seg_bits=False)
+    p['payload'] = rng.bytes(n); p['pt'] = 0xFE; p['kind'] = None
+    return p
+
+def big_ctx_cases(rng, tag, thorough):
+    """frame sizes at and above the 16-bit limits (DataContext holds size_t): a packet that (nearly) fills such a frame first in the
+    batch, after a small packet of the same / another type, followed by a small one; several large packets aggregated into one frame
+    longer than 65535 bytes"""
+    cases = []
+    maxes = BIG_MAXES if thorough else [65536, 65544, 65550, 65558, 65559, 65561, 80000]
+    k = 0
+    for maxb in maxes:
+        r = rng.fork('%s%d' % (tag, maxb))
+        ver = r.range(1, 255)
+        Ls = [min(65535, x) for x in (maxb - 24, maxb - 23, maxb - 25, 65535, 65520)]
+        for L in (sorted(set(Ls)) if thorough else [r.choice(Ls), min(65535, maxb - 23)]):
+            mt = r.choice([1, 3])
+            big = plain_packet(r, ver, L, mt)
+            shape = r.below(4) if not thorough else k % 4
+            if shape == 0:
+                batch = [big]
+            elif shape == 1:
+                batch = [plain_packet(r, ver, r.choice([1, 8, 30]), mt), big]
+            elif shape == 2:
+                batch = [plain_packet(r, ver, 8, 4 - mt), big]
+            else:
+                batch = [big, plain_packet(r, ver, r.choice([1, 8]), mt)]
+            cases.append(enc_case('%s%d' % (tag, k), r.below(65536), r.below(256), batch, r.choice([0, 0, 64, maxb]), maxb)); k += 1
+    for maxb, lens in ([(80000, [40000, 30000, 100, 8]), (131072, [65535, 65500, 10]), (80000, [65512, 30, 8]), (70000, [65500, 20, 8, 8])] +
+                       ([(200000, [65535, 65535, 65535, 1]), (65600, [65535, 1, 1]), (80000, [30000, 30000, 5600, 1, 1]), (65553, [65512, 1])] if thorough else [])):
+        r = rng.fork('%sagg%d' % (tag, k))
+        ver, mt = r.range(1, 255), r.choice([1, 3])
+        batch = [plain_packet(r, ver, n, mt) for n in lens]
+        cases.append(enc_case('%s%d' % (tag, k), r.below(65536), r.below(256), batch, 0, maxb)); k += 1
+    return cases
+
+def wrap_cases(rng, tag, thorough):
+    """one encoder that has already produced 65530..65535 frames (quiet ENCQ calls), then a batch whose segments / aggregated frames
+    straddle the 65535 -> 0 wrap of the sequence counter"""
+    cases = []
+    for i, n0 in enumerate([65533, 65534, 65535, 65531] if thorough else [65534, 65533]):
+        r = rng.fork('%s%d' % (tag, i))
+        ver = r.range(1, 255)
+        tiny = plain_packet(r, ver, 1, 1)
+        pre = [pkt_line(1000, tiny)] + ['ENCQ 0 25 ' + ' '.join(['1000'] * 2000)] * (n0 // 2000) + ['ENCQ 0 25 ' + ' '.join(['1000'] * (n0 % 2000))]
+        maxb = r.choice([64, 100])
+        batch = [plain_packet(r, ver, r.choice([200, 3 * (maxb - 24), 150]), 1), plain_packet(r, ver, 8, 1), plain_packet(r, ver, 9, 3)]
+        cases.append(enc_case('%s%d' % (tag, i), r.below(65536), r.below(256), batch, 0, maxb, pre=pre))
+    return cases
+
 def small_scope_cases(tag, nmax=3):
     """all batches of <= nmax packets over boundary lengths x message types x frame sizes (thorough tier)"""
     cases = []
